@@ -2943,7 +2943,7 @@ macro_rules! mat_impl_mat4 {
                     viewport.h / delta.y,
                     T::one()
                 );
-                Self::scaling_3d(sc) * Self::translation_3d(tr)
+                Self::translation_3d(tr) * Self::scaling_3d(sc)
             }
 
             /// Projects a world-space coordinate into screen space,
